@@ -23,7 +23,7 @@ COMPONENTS = {
 }
 ASSUMPTIONS = ['files do not change while the snapshot runs', 'path arguments are resolved (README); entries below a directory keep their traversal path',
                'no symlink cycles', 'scrypt work factors reduced (n<=8)']
-PROBES = ['empty_only_tree', 'dup_args', 'symlink_file', 'symlink_dir', 'preexisting_longer', 'preexisting_shorter', 'piece_knob', 'unaligned_max', 'min_eq_max']
+PROBES = ['empty_only_tree', 'dup_args', 'same_path_two_spellings', 'symlink_file', 'symlink_dir', 'preexisting_longer', 'preexisting_shorter', 'piece_knob', 'unaligned_max', 'min_eq_max']
 TIERS = {'quick': {'budget_s': 75, 'batch': 20}, 'thorough': {'budget_s': 900, 'batch': 40}}
 
 
@@ -59,6 +59,24 @@ def gen_case(seed, tier):
         args = [rng.choice(cands) for _ in range(rng.randrange(1, 5))]
         if rng.random() < 0.3:
             args.append(rng.choice(args))        # explicit repeat
+    srng = substream(seed, 'c01-spelling')
+    if srng.random() < 0.3:
+        # the same arguments spelled differently (and possibly twice under two spellings)
+        respelt = []
+        for a in args:
+            k2 = srng.random()
+            if k2 < 0.25:
+                respelt.append('./' + a)
+            elif k2 < 0.5:
+                respelt.append('data/../' + a)
+            elif k2 < 0.65 and '/' in a:
+                head, tail = a.rsplit('/', 1)
+                respelt.append(head + '/./' + tail)
+            else:
+                respelt.append(a)
+        if srng.random() < 0.5:
+            respelt.append('data/../' + srng.choice(args))
+        args = respelt
     args = [base64.b64encode(os.fsencode(a)).decode() for a in args]
     pre = None
     if rng.random() < 0.4:
@@ -122,6 +140,8 @@ def run_case(case):
         exp = expected_files(args)
         if len(set(map(str, args))) < len(args):
             probes['dup_args'] = 1
+        if len({os.path.realpath(a) for a in args}) < len(set(map(str, args))):
+            probes['same_path_two_spellings'] = 1
         if exp and all(len(v[0]) == 0 for v in exp.values()):
             probes['empty_only_tree'] = 1
         ch = case['settings']['chunking']
